@@ -15,7 +15,8 @@
     html_roundtrip_tree_partial xhtml_roundtrip_tree_partial html_roundtrip_tree_ns_partial
     xhtml_roundtrip_tree_ns_partial xhtml_roundtrip_cdata_partial cdata_end_not_recovered
     html_roundtrip_prolog_partial xhtml_roundtrip_prolog_partial pi_gt_not_recovered_html
-    xhtml_roundtrip_tree_qnames_partial
+    xhtml_roundtrip_tree_qnames_partial markup_text_as_plain html_roundtrip_markup_partial
+    xhtml_roundtrip_markup_partial
     rawtext_endtag_not_recovered comment_dashes_not_recovered attr_ws_not_recovered_xhtml
     markup_text_not_recovered raw_table_matches_reader normEol_id doctype_table_is_w3c
 -/
@@ -25,6 +26,7 @@ import Genshi.Lemmas.ReaderTreeNs
 import Genshi.Lemmas.ReaderXhtmlCdata
 import Genshi.Lemmas.ReaderPrologSim
 import Genshi.Lemmas.ReaderXmlView
+import Genshi.Lemmas.OutputSafeText
 import Genshi.Lemmas.Output
 import Genshi.Lemmas.OutputFlatten
 import Genshi.Model.OutputPipeline
@@ -579,6 +581,40 @@ example : tokens true (loop .xhtml ⟨false⟩ true {} exProlog).flatten =
     some [.pi ['x','m','l',' ','v','e','r','s','i','o','n','=','"','1','.','0','"'], .text ['\n'],
           .doctype ['h','t','m','l',' ','S','Y','S','T','E','M',' ','\'','a','"','b','\''], .text ['\n'],
           .start ['p'] [] false, .pi ['x', ' ', 'y'], .text ['<'], .end_ ['p']] := by decide
+
+/-- Markup (pre-escaped) text that is the escape of some string is written exactly like the plain
+    text of that string (and inside CDATA / script / style like the plain text itself): for every
+    method, option setting and stream, the output is that of the stream `desafe …` in which every
+    Markup TEXT event is replaced by the corresponding plain one. -/
+theorem markup_text_as_plain (m : Method) (o : Opts) (useCache : Bool) (evs : List FEv)
+    (hs : SafeProper m o {} evs) :
+    loop m o useCache {} evs = loop m o useCache {} (desafe m o {} evs) := by
+  have hl : ∀ l, loop m o useCache {} l = serSpec m o {} l := by
+    intro l
+    cases useCache
+    · exact loop_nocache_eq_spec m o l {}
+    · exact loop_cache_eq_spec m o l {} (cacheOk_nil m o)
+  rw [hl, hl, serSpec_desafe m o evs {} hs]
+
+/-- html round trip with Markup text: properly escaped Markup text is read back unescaped (this
+    covers what `WhitespaceFilter` hands on, see `Genshi.Output.properEsc_stdNorm`) -/
+theorem html_roundtrip_markup_partial (o : Opts) (useCache : Bool) (evs : List FEv)
+    (hs : SafeProper .html o {} evs) (hok : HtmlOkAllP false false (desafe .html o {} evs))
+    (hend : (foldP (desafe .html o {} evs) {} false).1.raw = false) :
+    tokens false (loop .html o useCache {} evs).flatten = some (htmlExpectedP (desafe .html o {} evs)) := by
+  rw [markup_text_as_plain .html o useCache evs hs]
+  exact html_roundtrip_prolog_partial o useCache _ hok hend
+
+theorem xhtml_roundtrip_markup_partial (o : Opts) (useCache : Bool) (evs : List FEv)
+    (hs : SafeProper .xhtml o {} evs) (hok : XhtmlOkAllP o false {} (desafe .xhtml o {} evs))
+    (hend : (foldXP o (desafe .xhtml o {} evs) {} {}).1.cd = none) :
+    tokens true (loop .xhtml o useCache {} evs).flatten = some (xhtmlExpectedP o (desafe .xhtml o {} evs)) := by
+  rw [markup_text_as_plain .xhtml o useCache evs hs]
+  exact xhtml_roundtrip_prolog_partial o useCache _ hok hend
+
+example : tokens false (loop .html {} true {} [.start ['p'] [], .text ['a', '&', 'a', 'm', 'p', ';'] true,
+      .text ['<'] false, .end_ ['p']]).flatten =
+    some [.start ['p'] [] false, .text ['a', '&', '<'], .end_ ['p']] := by decide
 
 /-- a processing instruction whose data contains `>` is cut short by an HTML parser (known finding
     C08-pi-gt-html) -/
